@@ -17,10 +17,11 @@ Oracle (float64, public arrays only, formulas written from the property statemen
   ``v_elem + Omega_elem_lab x offset``.  Repeated after the rod has been advanced / re-posed (stale caches).
 
 Tolerances: 64 * eps64 * (|terms|).  Measured max err/tol on the unchanged tree (quick seeds 0..5, thorough
-seeds 0,1): rigid_velocity 0.021, rod_velocity 0.007, rod_position 0.013 (surface) / 0.05 (edge grid: PyElastica's
+seeds 0,1): rigid_velocity 0.022, rod_velocity 0.009, rod_position 0.06 (0.05 of it on the edge grid: PyElastica's
 +1e-14 length regularisation makes |tangent| = 1 - 1e-14/l_e; 20x that is allowed), sphere_translation 0.022.
 The two finite-difference statistics (0.667 = 1/1.5) are measured against ANALYTIC truncation inequalities with a
-1.5x slack, not against a noise floor; their rounding part uses the same 64*eps floor.  Error ratio under
+1.5x slack, not against a noise floor; the rounding part (64*eps*|x|/h + 1e-13*|r| for PyElastica's |omega|+1e-14
+axis regularisation) is tracked separately as ``fd_rounding_excess_over_floor`` (max 0.08).  Error ratio under
 h -> h/2: 4.000 in every case (accepted window [3, 5]).
 
 Observed on the unchanged tree (confirmed before asserting): the element velocity SophT uses is the nodal-mass
@@ -69,6 +70,7 @@ ASSUMPTIONS = [
     "element velocity = momentum-conserving (nodal-mass weighted) average of the two node velocities (DESIGN §3.4); element centre = mid-point of its nodes",
     "2-D bodies lie in the plane z = 0 with lab angular velocity along z; only the first grid_dim components are compared",
     "PyElastica's cached rod.tangents are unit vectors up to its +1e-14 length regularisation (edge grid offsets may be short by radius*1e-14/l_e)",
+    "PyElastica's pose advance regularises the rotation axis by |omega| + 1e-14 (effective rotation rate short by 1e-14): 1e-13*|r| is added to the finite-difference floor",
     "the marker -> element map and the cap radius ratios are read from the grid's public layout (start_idx/end_idx, grid_point_radius_ratio); ratios are only trusted inside [0, 1] and only on capped end elements",
     "compute_lag_grid_position_field() is called before compute_lag_grid_velocity_field(), as every SophT interaction does",
 ]
@@ -153,7 +155,9 @@ def _rigid_fd(rec, case, tag):
         xm, Xm = _positions_at(case, -hh)
         xs[hh] = (xp, xm, Xp, Xm)
         cd = (xp - xm) / (2 * hh)
-        floor = K * EPS * (_n(X0) + reach + hh * _n(V)) / hh  # rounding of the two position fields over 2h
+        # rounding of the two position fields over 2h; PyElastica's Rodrigues operator normalises the axis with
+        # |omega| + 1e-14, i.e. it rotates 1e-14 rad/time slower than omega: allow 10x that (1e-13 * |r|)
+        floor = K * EPS * (_n(X0) + reach + hh * _n(V)) / hh + 1e-13 * reach
         errs.append((_n(cd - v), floor, hh))
         xs[("cd", hh)] = cd
     g.compute_lag_grid_position_field()  # back to the unadvanced pose
@@ -187,6 +191,9 @@ def _rigid_fd(rec, case, tag):
     boundR = 1.5 * h1**4 * w**5 * reach / 480 + fR + 1e-300
     r = float(max(np.max(e1 / bound1), np.max(e2 / bound2)))
     rec.count("fd_checks")
+    # headroom of the rounding floor alone: whatever exceeds the exact analytic bound is rounding
+    for e_, a_, f_ in ((e1, h1**2 * w**3 * reach / 6, f1), (e2, h2**2 * w**3 * reach / 6, f2), (eR, h1**4 * w**5 * reach / 480, fR)):
+        rec.stat("fd_rounding_excess_over_floor", float(np.max(np.maximum(e_ - a_, 0.0) / (f_ + 1e-300))))
     ok = _report(rec, "advanced-pose-markers!=velocity*h", kind, r, f"centred difference of marker positions under PyElastica's pose advance deviates from velocity_field beyond the O(h^2) bound; h={h1:.3g} {case.meta}", wit, "fd_vs_velocity")
     if ok:
         _report(rec, "advanced-pose-markers!=velocity*h (Richardson)", kind, float(np.max(eR / boundR)),
@@ -200,7 +207,7 @@ def _rigid_fd(rec, case, tag):
             rec.violation(f"pose-advance-not-second-order|{kind}", f"error ratio under h -> h/2 is {ratio:.4g}, expected ~4 {case.meta}", wit)
     else:
         rec.count("fd_on_rounding_floor")
-    rec.case((kind, "fd", tag, "flipped" if case.meta.get("flipped") else ""))
+    rec.case((kind, "fd", tag, "flipped" if case.meta.get("flipped") else ""), sample={**case.meta, "state": tag, "h": h1, "fd_err_over_bound": r})
 
 
 # ------------------------------------------------------------------------------------------------
@@ -236,7 +243,9 @@ def _rod_checks(rec, case, tag):
     off = bodies.pad3(pos) - np.where(np.arange(3)[:, None] < dim, xc[:, el], 0.0)  # marker offset from its element centre
     if dim == 2:
         off[2] = 0.0
-    tolx = K * EPS * (xscale + rad[el]) + 1e-300
+    # terms entering a marker offset: the marker position (~|x|), the element centre (two nodes), the rotated
+    # local offset (three products) times the radius
+    tolx = K * EPS * (2 * xscale + 4 * rad[el]) + 1e-300
     if kind == "edge2d":
         # the edge grid scales PyElastica's cached ``tangents``; PyElastica regularises lengths by +1e-14, so
         # |tangent| = 1 - 1e-14 / l_e: allow 20x that relative deviation of the edge offset
@@ -281,7 +290,8 @@ def _rod_checks(rec, case, tag):
     tolv = K * EPS * (vscale + _n(Om[:, el]) * (_n(off) + xscale)) + 1e-300
     rv = float(np.max(_n(vel - vref[:dim]) / tolv))
     _report(rec, "marker-velocity!=v_elem+Omega x offset", kind, rv, f"rod marker velocity differs from element velocity + (Q^T omega) x offset {tag} {case.meta}", wit, "rod_velocity")
-    rec.case((kind, case.meta["taper"], case.meta["centreline"], "n<=4" if rod.n_elems <= 4 else "n>4", tag))
+    rec.case((kind, case.meta["taper"], case.meta["centreline"], "n<=4" if rod.n_elems <= 4 else "n>4", tag),
+             sample={**case.meta, "state": tag, "position_err_over_tol": rdist, "velocity_err_over_tol": rv})
 
 
 # ------------------------------------------------------------------------------------------------
@@ -305,7 +315,7 @@ def run_shard(sh, rec):
     logging.disable(logging.CRITICAL)
     tier, seed = sh["tier"], sh["seed"]
     rng = util.rng_for(seed, ID, "bodies", sh["idx"])
-    ncase = 100 if tier == "quick" else 400
+    ncase = 100 if tier == "quick" else 1000
     kinds = bodies.ALL_KINDS
     for j in range(ncase):
         kind = kinds[(sh["idx"] + j * 5) % len(kinds)] if j % 3 else str(rng.choice(kinds))
